@@ -382,6 +382,7 @@ func runC01(c *core.Ctx) {
 	checkErrOrigin(c)
 	checkSourceAdvance(c)
 	checkLastIndex(c)
+	checkDispatchErrorToken(c)
 	if os.Getenv("FV_LIST_SCAN") != "" {
 		listScanSteps(c)
 	}
